@@ -8,7 +8,7 @@ TRUSTED_BASE = [
     "the order-selection criteria use numpy.log; the model's criterion formulas are evaluated in doubles (float mode)",
     "exact mode (no criterion): model in exact Gaussian rationals on dyadic data, rtol 1e-8; float mode otherwise, rtol 1e-7",
 ]
-PARTIAL = ["stability of the step-up polynomial when all |k_i| < 1 (Schur-Cohn): oracle only (numpy.roots)"]
+PARTIAL = []   # stability: C13.burg_stable (closed disc for |k_i| <= 1, open disc when all |k_i| < 1)
 ASSUMPTIONS = ["non-degenerate prediction error: every stage variance rho_k >= 1e-9 * rho_0 (otherwise the case is skipped and counted)",
                "AICc / AKICc divide by N-k-2: order N-2 with those criteria is outside the domain"]
 RULE = ("real/complex data (noise, tones in noise, integer, zero-interleaved integer, trends) of length 4..24 (orders <= 6) exact / ..200 "
